@@ -139,3 +139,57 @@ pub fn lower_source(src: &str) -> Result<BTreeMap<String, tir::Tx>, FrontError> 
     }
     Ok(out)
 }
+
+// ---------------------------------------------------------------------------------------------
+// staged application with explicit inputs and fee (the order the repository's own tests use)
+
+use tx3_tir::compile::{CompiledTx, Compiler as _};
+use tx3_tir::encoding::AnyTir;
+use tx3_tir::model::core::Utxo;
+use tx3_tir::reduce::{Apply as _, ArgMap};
+use tx3_tir::Node as _;
+
+#[derive(Debug, Clone)]
+pub struct StageError {
+    pub stage: &'static str,
+    pub message: String,
+}
+
+pub struct RunCfg {
+    pub pp: PP,
+    pub fee: u64,
+    pub args: ArgMap,
+    pub inputs: BTreeMap<String, Vec<Utxo>>,
+}
+
+/// apply_args -> apply_fees -> reduce -> compiler ops -> apply_inputs -> reduce
+pub fn apply_all(tx: tir::Tx, cfg: &RunCfg, compiler: &mut Compiler) -> Result<tir::Tx, StageError> {
+    let e = |stage: &'static str| move |err: tx3_tir::reduce::Error| StageError { stage, message: err.to_string() };
+    let tx = tx.apply_args(&cfg.args).map_err(e("apply_args"))?;
+    let tx = tx.apply_fees(cfg.fee).map_err(e("apply_fees"))?;
+    let tx = tx.reduce().map_err(e("reduce-1"))?;
+    let tx = tx.apply(compiler).map_err(e("compiler-ops"))?;
+    let inputs: BTreeMap<String, std::collections::HashSet<Utxo>> = cfg
+        .inputs
+        .iter()
+        .map(|(k, v)| (k.clone(), v.iter().cloned().collect()))
+        .collect();
+    let tx = tx.apply_inputs(&inputs).map_err(e("apply_inputs"))?;
+    let tx = tx.reduce().map_err(e("reduce-2"))?;
+    Ok(tx)
+}
+
+pub fn run_pipeline(tx: tir::Tx, cfg: &RunCfg) -> Result<(CompiledTx, tir::Tx), StageError> {
+    let mut compiler = compiler(&cfg.pp);
+    let reduced = apply_all(tx, cfg, &mut compiler)?;
+    if !reduced.is_constant() {
+        return Err(StageError {
+            stage: "not-constant",
+            message: format!("template still has unresolved parts: {:?}", super::canon::unresolved(&reduced)),
+        });
+    }
+    let compiled = compiler
+        .compile(&AnyTir::V1Beta0(reduced.clone()))
+        .map_err(|e| StageError { stage: "compile", message: e.to_string() })?;
+    Ok((compiled, reduced))
+}
